@@ -147,6 +147,8 @@ def run(tier, seed):
                       e.startswith(('Invalid children detected for <Message', 'Invalid children detected for <Group'))]
                 if st:
                     key = 'D17:duplicate-rows' if (dup and agree) else None
+                    if key is None and agree and all('ANYHL7SEGMENT' in e for e in st):
+                        key = 'D2:%s:ANYHL7SEGMENT' % v      # the placeholder row of the tables: no instance can hold it
                     chk.fail(key, {'clause': 'instance-validates-structurally', 'errors': st[:5], **rep}, rep)
     chk.dist['result_kinds'] = kinds
     chk.dist['instances'] = n
